@@ -14,6 +14,7 @@ def check(ctx):
     ctx.guard(r083, ctx)
     ctx.guard(_shared_c08, ctx)
     ctx.guard(_mixture, ctx)
+    ctx.guard(r088_best_h, ctx)
 
 def _no_lag(fq, depth):
     return not fq.startswith(M_LAG + ":")
@@ -357,3 +358,63 @@ def _shared_c08(ctx):
     lifecycle_of(ctx, [EG], {"R19.3": "R08.5", "R19.4": "R08.5"})
     ctx.rule("R08.6", "no caller-labelled pandas value reaches a label-aligning operation on the paths of this property (shared with C12 R12.1)")
     label_sinks(ctx, "R08.6", [(EG + ".fit", EG)])
+
+
+def r088_best_h(ctx):
+    ctx.rule("R08.8", "best_h: the candidate's value is error + gamma . lambda; it is recorded - predictor, callable, error, gamma, "
+                      "lambda under one new index len(hs) - exactly when it improves on the best stored value by more than "
+                      "_PRECISION; the stored best is the arg-min of errors + gammas^T lambda; the returned pair is (hs[best], best)")
+    A = Analysis(ctx, no_inline=[LAG + "._call_oracle", M_LAG + ":_PredictorAsCallable.__init__"], max_depth=2)
+    r = A.run(LAG + ".best_h", cls_ctx=LAG)
+    fq = r.func
+    P = r.params
+    lam = P["lambda_vec"]
+    orc = calls_to(r, LAG + "._call_oracle")
+    ctx.require(len(orc) == 1, "anchor vanished: _call_oracle call in best_h")
+    ok = arg(orc[0], 0) is lam
+    ctx.ob("R08.8", fq, orc[0].node, ok, "the oracle is called with the given multiplier vector", construct="oracle call")
+    clf = orc[0].data["result"]
+    wraps = [e for e in r.events if e.kind == "call" and e.data.get("constructs") == M_LAG + ":_PredictorAsCallable"]
+    ok = len(wraps) == 1 and arg(wraps[0], 0) is clf
+    ctx.ob("R08.8", fq, wraps[0].node if wraps else None, ok, "the callable wraps the classifier the oracle returned",
+           construct="callable wraps oracle result")
+    if not wraps:
+        return
+    h = wraps[0].data["result"]
+    st = [e for e in r.events if e.kind == "store" and e.data.get("tkind") == "sub" and e.func == fq]
+    by = {}
+    import ast as _ast
+    for e in st:
+        b = e.data.get("base_node")
+        name = None
+        if isinstance(b, _ast.Attribute) and b.attr == "at" and isinstance(b.value, _ast.Attribute):
+            name = b.value.attr
+        elif isinstance(b, _ast.Attribute):
+            name = b.attr
+        if name:
+            by.setdefault(name, []).append(e)
+    need = {"hs", "predictors", "errors", "gammas", "lambdas"}
+    ok = need <= set(by) and all(len(by[n]) == 1 for n in need)
+    if ok:
+        keys = {by[n][0].data["key"] for n in need}
+        idx = A.at(by["hs"][0], "len(HS)", {"HS": root_of(by["hs"][0].data["obj"]), "len": glob("builtins.len")})
+        ok = len(keys) == 1 and A.eq(next(iter(keys)), A.entry(r, "len(self.hs)")) and len({tuple(x.uid for x in by[n][0].pc) for n in need}) == 1
+        herr = A.spec("O.gamma(h).iloc[0]", {"O": A.entry(r, "self.obj"), "h": h})
+        hgam = A.spec("C.gamma(h)", {"C": A.entry(r, "self.constraints"), "h": h})
+        vals_ok = by["hs"][0].data["value"] is h and by["predictors"][0].data["value"] is clf and A.eq(by["errors"][0].data["value"], herr) \
+            and A.eq(by["gammas"][0].data["value"], hgam) and A.eq(by["lambdas"][0].data["value"], A.spec("l.copy()", {"l": lam}))
+        ok = ok and vals_ok
+        # improvement test
+        lit = A.C.canon(by["hs"][0].pc[-1]) if by["hs"][0].pc else None
+        hval = A.spec("e + g.dot(l)", {"e": herr, "g": hgam, "l": lam})
+        values = A.entry(r, "self.errors + self.gammas.transpose().dot(lambda_vec)")
+        bestv = mk("ite", A.entry(r, "not self.hs.empty"), A.spec("v[v.idxmin()]", {"v": values}), glob("numpy.inf"))
+        want = A.C.canon(A.spec("hv < bv - P", {"hv": hval, "bv": bestv, "P": A.ev.eval_src("_PRECISION", {}, module=M_LAG)}))
+        ok = ok and lit is want
+    ctx.ob("R08.8", fq, by["hs"][0].node if "hs" in by else None, ok, "an improving candidate is recorded in all five tables under "
+           "the same new index len(hs), with its own error / gamma / lambda" if ok else
+           "the five best-response tables are not updated in lock-step under one new index (or the improvement test differs)",
+           construct="best-response records")
+    ret = r.ret
+    ok = ret is not None and ret.op == "tuple" and len(ret.args[0]) == 2 and ret.args[0][0].op == "sub" and ret.args[0][0].args[1] is ret.args[0][1]
+    ctx.ob("R08.8", fq, None, ok, "best_h returns (hs[best_idx], best_idx)", construct="best_h return")
